@@ -14,5 +14,6 @@ func extra(w func(string, ...any), repo string) {
 	w("def p2pkeNoncePostHandshake : Nat := %d", npost)
 	w("def p2pkePurposeChannelBinding : String := %q", pcb)
 	w("def p2pkePurposeTimestamp : String := %q", pts)
+	w("def p2pkeHandshakeAttempts : Nat := %d", p2pke.VerifHandshakeAttempts())
 	selectSkeletons(w, repo)
 }
